@@ -569,3 +569,29 @@ Proof.
         -- rewrite blit_length; auto; lia.
     + inversion E; subst; clear E; cbn. split; [discriminate|intros _]. repeat split; auto; lia.
 Qed.
+
+(** * Statements in expanded form (for Properties_C02.v) *)
+
+Theorem inv_reachable_expanded s : reachable init step s ->
+  qsize s = Z.of_nat (length (ptr (mm s))) /\
+  0 <= Beff s /\ Beff s <= Teff s /\ Teff s <= qsize s /\
+  Permutation (pushed s) (returned s ++ live s ++ inflight s) /\
+  (NoDup (pushed s) -> NoDup (returned s ++ live s ++ inflight s)) /\
+  lck (mm s) = holders s /\ 0 <= holders s <= 1 /\
+  (forall t i m b, own s = OPopFast t -> nth_error (thv s) i = Some (TSlot m b) -> 0 <= b < t).
+Proof.
+  intros H. destruct (inv_reachable s H) as [S1 S2 [S3 [S3' S3'']] S4 S5 [S6 S6'] S7].
+  repeat split; auto; lia.
+Qed.
+
+(** every capacity, every number of thieves, every schedule (hence every sequence of
+    operations: the calls are schedule entries) *)
+Theorem inv_every_schedule sz n (sched : list actor) :
+  2 <= sz -> StateInv (run step sched (init_state sz n)).
+Proof.
+  intros Hsz. apply inv_reachable. apply run_reachable. apply reach_init.
+  exists sz, n. split; auto.
+Qed.
+
+(** sample schedules for the non-vacuity examples *)
+Definition do_push (x : Z) : list actor := [(O, CallO (Push x)); (O, Tick); (O, Tick); (O, Tick); (O, Ret)].
